@@ -4,6 +4,8 @@ Case: {"body": [Op], "releases": [[t, gate]], "inject": iteration | null}"""
 
 from __future__ import annotations
 
+from hypothesis import strategies as st
+
 from hv import conc
 from hv import progs as P
 from hv.core import Outcome
@@ -19,6 +21,7 @@ RULE = (
     "still pending when the body ends, a grandchild, or a spawn from a nested sync block; distinct = distinct program"
 )
 RULE += "; body outcomes include a CancelledError of the body's own (no cancel request pending); disposables may spawn a task while entering"
+RULE += '; resource programs (a task that ends when a disposable of the scope is exited); disposables may spawn while entering'
 LEVEL_TEXT = (
     "At the first harness instruction after every async scope block (any exit path) every task spawned into it, "
     "transitively, must be done; leaving must terminate (virtual loop quiescence = hang, decided exactly); outside any "
@@ -189,7 +192,8 @@ def run_case(case) -> Outcome:
 
 
 def strategy(tier):
-    return conc.program(disp_faults=False, body_raises=True, top_spawn=True).map(lambda p: {**p, "inject": None})
+    progs = conc.program(disp_faults=False, body_raises=True, top_spawn=True)
+    return st.one_of(progs, progs, progs, progs, conc.resource_program()).map(lambda p: {**p, "inject": None})
 
 
 def budget(tier):
